@@ -3,6 +3,8 @@ package worlds
 import (
 	"bytes"
 	"fmt"
+	"github.com/google/martian/v3"
+	"github.com/google/martian/v3/trafficshape"
 	"net/url"
 	"strings"
 	"time"
@@ -83,7 +85,17 @@ func runC04(k *kernel.K) {
 		n.DefaultPolicy = simnet.ChunkPolicy(w.Pick([]int{4, 3, 2, 1, 0, 3}))
 		n.DefaultCap = []int{0, 4096, 65536, 700}[w.Pick([]int{3, 2, 2, 1})]
 	}
-	proxy, l := newProxyA(k, n)
+	proxy := martian.NewProxy()
+	proxy.SetDial(n.DialFunc("proxy"))
+	l := n.Listen("10.0.0.1:8080")
+	if w.Chance(1, 5) {
+		// the listener cmd/proxy uses with -traffic-shaping (no shapes configured): the client
+		// connection the tunnel code sees is a *trafficshape.Conn
+		personality += "+shaped_listener"
+		go proxy.Serve(trafficshape.NewListener(l))
+	} else {
+		go proxy.Serve(l)
+	}
 	mode := []string{"direct", "downstream", "unreachable"}[w.Pick([]int{5, 3, 1})]
 	authority := "target.test:443"
 
@@ -176,6 +188,36 @@ func runC04(k *kernel.K) {
 	}
 	k.AddSource(cl.actions)
 	k.AddSource(tg.actions)
+	// Pauses: the clock moves while the tunnel is in use. No gap between two moments at which bytes
+	// passed through the proxy is longer than 200 s (the idle timeout is 5 minutes), but the tunnel
+	// as a whole may live for longer than that.
+	pausesLeft, consecutive, lastProgress := 0, 0, -1
+	if w.Chance(1, 4) {
+		pausesLeft = 2 + w.Draw(4)
+	}
+	k.AddSource(func(add func(kernel.Action)) {
+		if pausesLeft == 0 || k.Draining || !(cl.ready && tg.c != nil && tg.ready) || (!cl.canWrite() && !tg.canWrite()) {
+			return
+		}
+		// progress = bytes the proxy has read (what its idle timer sees), not bytes that have
+		// reached the far end or that merely wait in the proxy's socket buffer
+		p := cl.sent - cl.c.InFlight() - cl.c.Peer().Unread() + tg.sent
+		if tg.c != nil {
+			p -= tg.c.InFlight() + tg.c.Peer().Unread()
+		}
+		if p != lastProgress {
+			consecutive, lastProgress = 0, p
+		}
+		if consecutive >= 2 {
+			return
+		}
+		add(kernel.Action{Key: "pause 100s", W: 1, Class: kernel.Clock, Do: func() {
+			pausesLeft--
+			consecutive++
+			k.Probe("tunnel_in_use_across_pause")
+			k.Advance(100 * time.Second)
+		}})
+	})
 	k.StateFn = func() string {
 		return fmt.Sprintf("%s|%d/%d.%v|%d/%d.%v", n.Fingerprint(), cl.sent, len(cl.recv), cl.sawEOF, tg.sent, len(tg.recv), tg.sawEOF)
 	}
